@@ -142,4 +142,90 @@ theorem hlook_of_vars (e : ν × κr ≃ ι)
 
 end Step
 
+/-! ## 3. the whole run: nested sum-products equal their flat unrolling
+
+  Every factor the loop ever holds is either an input factor or
+  `Π_{k : reduced plates} Σ_{d : group variables} Π_{c : group} child_c` — a tree (`Plan`).  `ι` is the
+  index type of the node's ordinal, `E` the type of the environment of the variables that are still
+  open at the node.  `Plan.eval` is what the loop computes, `Plan.inst`/`Plan.Copies` its flat
+  unrolling: one copy of the variables summed at a node per index of the plates multiplied out at that
+  node and at every node above it. -/
+
+inductive Plan (R : Type) : Type → Type → Type 1
+  | leaf {ι E : Type} (fn : ι → E → R) : Plan R ι E
+  | node {ι ν E : Type} (κr δ C : Type) [Fintype κr] [DecidableEq κr] [Fintype δ] [Fintype C] [DecidableEq C]
+      (e : ν × κr → ι) (children : C → Plan R ι (E × δ)) : Plan R ν E
+
+namespace Plan
+variable {R : Type} [CommSemiring R]
+
+def eval : {ι E : Type} → Plan R ι E → ι → E → R
+  | _, _, .leaf fn, i, env => fn i env
+  | _, _, @Plan.node _ _ _ _ κr δ C _ _ _ _ _ e ch, j, env =>
+      ∏ k : κr, ∑ d : δ, ∏ c : C, (ch c).eval (e (j, k)) (env, d)
+
+def Copies : {ι E : Type} → Plan R ι E → Type
+  | _, _, .leaf _ => Unit
+  | _, _, @Plan.node _ _ _ _ κr δ C _ _ _ _ _ _ ch => κr → (δ × ∀ c : C, (ch c).Copies)
+
+set_option warn.classDefReducibility false in
+noncomputable def copiesFintype : {ι E : Type} → (p : Plan R ι E) → Fintype p.Copies
+  | _, _, .leaf _ => (inferInstance : Fintype Unit)
+  | _, _, @Plan.node _ _ _ _ κr δ C _ _ _ _ _ _ ch => by
+      have := fun c => copiesFintype (ch c)
+      show Fintype (κr → (δ × ∀ c : C, (ch c).Copies))
+      infer_instance
+
+noncomputable instance {ι E : Type} (p : Plan R ι E) : Fintype p.Copies := copiesFintype p
+
+def inst : {ι E : Type} → (p : Plan R ι E) → ι → E → p.Copies → R
+  | _, _, .leaf fn, i, env, _ => fn i env
+  | _, _, @Plan.node _ _ _ _ κr _ C _ _ _ _ _ e ch, j, env, X =>
+      ∏ k : κr, ∏ c : C, (ch c).inst (e (j, k)) (env, (X k).1) ((X k).2 c)
+
+theorem nested_eq_unrolled : ∀ {ι E : Type} (p : Plan R ι E) (i : ι) (env : E),
+    p.eval i env = ∑ X : p.Copies, p.inst i env X
+  | _, _, .leaf fn, i, env => by
+      show fn i env = ∑ X : Unit, fn i env
+      simp
+  | _, _, @Plan.node _ _ _ _ κr δ C _ _ _ _ _ e ch, j, env => by
+      have ih := fun c i env' => nested_eq_unrolled (ch c) i env'
+      show (∏ k : κr, ∑ d : δ, ∏ c : C, (ch c).eval (e (j, k)) (env, d))
+          = ∑ X : κr → (δ × ∀ c : C, (ch c).Copies),
+              ∏ k : κr, ∏ c : C, (ch c).inst (e (j, k)) (env, (X k).1) ((X k).2 c)
+      simp_rw [ih]
+      rw [← Fintype.piFinset_univ]
+      rw [← Finset.prod_univ_sum (fun _ => univ)
+            (fun (k : κr) (p : δ × ∀ c : C, (ch c).Copies) =>
+              ∏ c : C, (ch c).inst (e (j, k)) (env, p.1) (p.2 c))]
+      refine Finset.prod_congr rfl fun k _ => ?_
+      rw [Fintype.sum_prod_type]
+      refine Finset.sum_congr rfl fun d _ => ?_
+      rw [Finset.prod_univ_sum, Fintype.piFinset_univ]
+
+end Plan
+
+/-- FULL STATEMENT (not proved in this generality, kept visible):
+
+      sum_product_exact :  psp G = ok results  →  Π results = unroll G
+
+    for the executable `FV.C09.psp` / `FV.C09.unroll` over a lawful commutative semiring.
+    What is proved instead:
+      * `step_preserves_unroll` (+ `hlook_of_vars`, and section 4 for where its hypotheses come from):
+        each iteration preserves the ordinal-indexed unrolled value;
+      * `sum_product_exact_partial` below: the value the whole run returns (product of the results,
+        each a nested `Plan`) equals a flat sum over copies of the product of all input-factor
+        instances, for runs of any length and nesting depth.
+    Missing: one statement composing the step theorem along an arbitrary run, i.e. that the
+    path-indexed copies of `Plan.Copies` coincide with the ordinal-indexed copies of `unroll` for every
+    graph the loop accepts (it needs the state of the loop as a single dependent type; the per-step
+    identification is `step_preserves_unroll`).  The executable loop is tied to these statements by the
+    run-time echo `psp = unroll` on every generated case. -/
+theorem sum_product_exact_partial {Res E : Type} [Fintype Res] [DecidableEq Res]
+    (results : Res → Plan R Unit E) (env : E) :
+    ∏ r, (results r).eval () env
+      = ∑ X : ∀ r, (results r).Copies, ∏ r, (results r).inst () env (X r) := by
+  simp_rw [Plan.nested_eq_unrolled]
+  rw [Finset.prod_univ_sum, Fintype.piFinset_univ]
+
 end FV.Props.C09
